@@ -18,9 +18,9 @@ Proof. unfold upd. intros H. apply Nat.eqb_neq in H. rewrite H. reflexivity. Qed
 
 Lemma key_eqb_eq a b : key_eqb a b = true <-> a = b.
 Proof.
-  destruct a as [[a1 a2] a3], b as [[b1 b2] b3]. unfold key_eqb.
+  destruct a as [[[a0 a1] a2] a3], b as [[[b0 b1] b2] b3]. unfold key_eqb.
   rewrite !andb_true_iff, !N.eqb_eq. split.
-  - intros [[-> ->] ->]. reflexivity.
+  - intros [[[-> ->] ->] ->]. reflexivity.
   - intros H. inversion H. auto.
 Qed.
 
@@ -33,6 +33,9 @@ Proof. unfold lookup_over. apply flat_map_app. Qed.
 
 Section Proofs.
   Variable sro : N -> list N.
+  (* the cache key determines the lookup (it contains the classifier) *)
+  Variable km : key_mode.
+  Hypothesis Hkm : forall k, ckey km k = k.
 
   (* body of [if views:] -- the translated one (with the lock) or one of the two lock-free variants *)
   Variable wb : list instr.
@@ -44,9 +47,9 @@ Section Proofs.
 
   Notation slots := (slots_of sro).
   Notation lall := (lookup_all sro).
-  Notation stepT := (step_thread sro).
-  Notation doL := (do_label sro LPs RPs).
-  Notation run := (exec sro LPs RPs).
+  Notation stepT := (step_thread sro km).
+  Notation doL := (do_label sro km LPs RPs).
+  Notation run := (exec sro km LPs RPs).
 
   Definition quietT (th : tid -> option thread) : Prop :=
     forall i t, th i = Some t -> midway t = false.
@@ -309,7 +312,7 @@ Section Proofs.
     assert (PUT : forall t', tkind t' = KLookup -> tc t' = tc t ->
                   lk_ok (R st) (cur st) (quiet st) t' -> Inv (put st i t')).
     { intros t' K1 K2 K3. eapply inv_put_lookup; eauto. rewrite K2. exact A. }
-    unfold step_thread.
+    unfold step_thread. rewrite ?Hkm.
     destruct B as [Hc Htc Hv|Hc Htc Hv|Hc Htc Hv|vs Hc Htc Hv Hne Hcs|Hc Htc Hv|Hc Htc Hv
                   |vs dn todo Hc Htc Hv Hsp Hcs|vs Hc Htc Hv Hne Hcs|vs Hc Htc Hv Hne Hcs
                   |vs Hc Htc Hv Hcs|vs Hc Htc Hv Hcs|Hc|vs d Hc Htc Hv Hne Hcs Hsn Hd1 Hd2].
@@ -618,7 +621,7 @@ Section Proofs.
   Qed.
 
   Lemma span_run tr st :
-    Inv st -> quiet st -> reg_free sro LPs RPs st tr = true ->
+    Inv st -> quiet st -> reg_free sro km LPs RPs st tr = true ->
     quiet (run tr st) /\ R (run tr st) = R st /\ cur (run tr st) = cur st /\
     forall j t', threads (run tr st) j = Some t' -> tkind t' = KLookup ->
                  (forall t, threads st j = Some t -> tkind t = KLookup -> P st t) -> P (run tr st) t'.
@@ -680,7 +683,7 @@ Section Proofs.
     let st1 := run tr1 (init R0) in
     let st2 := run (SpawnLookup k :: tr2) st1 in
     quietb st1 = true ->
-    reg_free sro LPs RPs st1 (SpawnLookup k :: tr2) = true ->
+    reg_free sro km LPs RPs st1 (SpawnLookup k :: tr2) = true ->
     exists t, threads st2 (ntid st1) = Some t /\ tkind t = KLookup /\ tkey t = k /\
               (cont t = [] -> tres t = Some (lall (R st1) k)).
   Proof.
@@ -710,16 +713,16 @@ Section Proofs.
     let st1 := run (Step i :: trm) st0 in
     let st2 := run (SpawnLookup k :: tr2) st1 in
     threads st0 i = Some ti -> tkind ti = KRegister -> cont ti = RPs ->
-    reg_free sro LPs RPs (doL st0 (Step i)) trm = true ->
+    reg_free sro km LPs RPs (doL st0 (Step i)) trm = true ->
     quietb st1 = true ->
-    reg_free sro LPs RPs st1 (SpawnLookup k :: tr2) = true ->
+    reg_free sro km LPs RPs st1 (SpawnLookup k :: tr2) = true ->
     exists t, threads st2 (ntid st1) = Some t /\ tkind t = KLookup /\ tkey t = k /\
               (cont t = [] -> tres t = Some (lall (rapply (tups ti) (R st0)) k)).
   Proof.
     intros st0 st1 st2 Hi Hk Hc Hfm Hqb Hf.
     assert (E : R st1 = rapply (tups ti) (R st0)).
     { unfold st1. simpl. 
-      assert (G : forall tr st, reg_free sro LPs RPs st tr = true -> R (run tr st) = R st).
+      assert (G : forall tr st, reg_free sro km LPs RPs st tr = true -> R (run tr st) = R st).
       { induction tr as [|l tr IH]; intros st H; simpl; [reflexivity|].
         simpl in H. apply andb_true_iff in H. destruct H as [H1 H2]. apply negb_true_iff in H1.
         rewrite IH by auto. apply reg_step_false_R. exact H1. }
@@ -749,7 +752,7 @@ Section Proofs.
   (* concurrent_equals_sequential: registrations fixed (R0), any number of lookup threads
      interleaved in any way: every finished lookup returned lookup_all R0 of its key ... *)
   Lemma concurrent_answer_std R0 tr j t :
-    reg_free sro LPs RPs (init R0) tr = true ->
+    reg_free sro km LPs RPs (init R0) tr = true ->
     threads (run tr (init R0)) j = Some t -> tkind t = KLookup -> cont t = [] ->
     tres t = Some (lall R0 (tkey t)).
   Proof.
@@ -782,7 +785,7 @@ Section Proofs.
   Lemma lookups_reg_free tr st :
     Inv st -> (forall i ti, threads st i = Some ti -> tkind ti = KLookup) ->
     forallb no_spawn_register tr = true ->
-    reg_free sro LPs RPs st tr = true.
+    reg_free sro km LPs RPs st tr = true.
   Proof.
     revert st. induction tr as [|l tr IH]; intros st I HL Hn; simpl; [reflexivity|].
     simpl in Hn. apply andb_true_iff in Hn. destruct Hn as [Hn1 Hn2].
@@ -806,7 +809,7 @@ Section Proofs.
 
   (* ... which is the answer of every single-threaded run of the same lookup *)
   Lemma concurrent_equals_sequential_std R0 tr j t n t0 :
-    reg_free sro LPs RPs (init R0) tr = true ->
+    reg_free sro km LPs RPs (init R0) tr = true ->
     threads (run tr (init R0)) j = Some t -> tkind t = KLookup -> cont t = [] ->
     threads (run (SpawnLookup (tkey t) :: repeat (Step 0) n) (init R0)) 0 = Some t0 -> cont t0 = [] ->
     tres t = tres t0.
@@ -898,14 +901,14 @@ Section Proofs.
           -- right. split; [discriminate|]. split; [exact A|]. split; [rewrite B, Hkey; exact Hvs|exact HP'].
   Qed.
 
-  Lemma G_run tr st ex : Inv st -> G st ex -> G (run tr st) (expect sro LPs RPs st tr ex).
+  Lemma G_run tr st ex : Inv st -> G st ex -> G (run tr st) (expect sro km LPs RPs st tr ex).
   Proof.
     revert st ex. induction tr as [|l tr IH]; intros st ex I HG; simpl; [exact HG|].
     apply IH; [apply inv_label; exact I|]. apply G_label; auto.
   Qed.
 
   Lemma expect_sound_std R0 tr j vs t :
-    expect sro LPs RPs (init R0) tr (fun _ => None) j = Some vs ->
+    expect sro km LPs RPs (init R0) tr (fun _ => None) j = Some vs ->
     threads (run tr (init R0)) j = Some t -> cont t = [] ->
     tkind t = KLookup /\ tres t = Some vs.
   Proof.
@@ -920,62 +923,63 @@ End Proofs.
 (* ================= the theorems for the programs of the current tree ================= *)
 (* the three bodies of [if views:] the development covers *)
 Definition wb_cases (wb : list instr) : Prop := wb = std_wb Local \/ wb = wb_nolock \/ wb = wb_nolock_split.
+Lemma HkmF : forall k, ckey KeyFull k = k. Proof. reflexivity. Qed.
 Lemma HwbL : wb_cases (std_wb Local). Proof. left. reflexivity. Qed.
 Lemma HwbN : wb_cases wb_nolock. Proof. right. left. reflexivity. Qed.
 Lemma HwbS : wb_cases wb_nolock_split. Proof. right. right. reflexivity. Qed.
 
-Theorem lookup_fresh : fresh_claim lookup_prog register_prog.
+Theorem lookup_fresh : fresh_claim KeyFull lookup_prog register_prog.
 Proof.
   rewrite facts_lookup_prog, facts_register_prog.
-  intros sro R0 tr1 k tr2. exact (lookup_fresh_std sro _ HwbL R0 tr1 k tr2).
+  intros sro R0 tr1 k tr2. exact (lookup_fresh_std sro KeyFull HkmF _ HwbL R0 tr1 k tr2).
 Qed.
 
-Theorem misses_not_cached : misses_claim lookup_prog register_prog.
+Theorem misses_not_cached : misses_claim KeyFull lookup_prog register_prog.
 Proof.
   rewrite facts_lookup_prog, facts_register_prog.
-  intros sro R0 tr. exact (misses_not_cached_std sro _ HwbL R0 tr).
+  intros sro R0 tr. exact (misses_not_cached_std sro KeyFull HkmF _ HwbL R0 tr).
 Qed.
 
 Lemma cache_inv : forall sro R0 tr,
-  let st := exec sro lookup_prog register_prog tr (init R0) in
+  let st := exec sro KeyFull lookup_prog register_prog tr (init R0) in
   quietb st = true ->
   (forall k vs, dget (heap st (cur st)) k = Some vs -> vs = lookup_all sro (R st) k /\ vs <> []) /\
   (forall i t vs, threads st i = Some t -> tkind t = KLookup -> cont t <> [] ->
                   tc t = Some (cur st) -> tviews t = Some vs ->
                   exists dn, dn ++ pending sro (tkey t) (cont t) = slots_of sro (tkey t) /\
                              vs = lookup_over (R st) dn).
-Proof. rewrite facts_lookup_prog, facts_register_prog. exact (fun sro => cache_inv_std sro _ HwbL). Qed.
+Proof. rewrite facts_lookup_prog, facts_register_prog. exact (fun sro => cache_inv_std sro KeyFull HkmF _ HwbL). Qed.
 
 Lemma no_stale_after_register : forall sro R0 tr0 i ti trm k tr2,
-  let st0 := exec sro lookup_prog register_prog tr0 (init R0) in
-  let st1 := exec sro lookup_prog register_prog (Step i :: trm) st0 in
-  let st2 := exec sro lookup_prog register_prog (SpawnLookup k :: tr2) st1 in
+  let st0 := exec sro KeyFull lookup_prog register_prog tr0 (init R0) in
+  let st1 := exec sro KeyFull lookup_prog register_prog (Step i :: trm) st0 in
+  let st2 := exec sro KeyFull lookup_prog register_prog (SpawnLookup k :: tr2) st1 in
   threads st0 i = Some ti -> tkind ti = KRegister -> cont ti = register_prog ->
-  reg_free sro lookup_prog register_prog (do_label sro lookup_prog register_prog st0 (Step i)) trm = true ->
+  reg_free sro KeyFull lookup_prog register_prog (do_label sro KeyFull lookup_prog register_prog st0 (Step i)) trm = true ->
   quietb st1 = true ->
-  reg_free sro lookup_prog register_prog st1 (SpawnLookup k :: tr2) = true ->
+  reg_free sro KeyFull lookup_prog register_prog st1 (SpawnLookup k :: tr2) = true ->
   exists t, threads st2 (ntid st1) = Some t /\ tkind t = KLookup /\ tkey t = k /\
             (cont t = [] -> tres t = Some (lookup_all sro (rapply (tups ti) (R st0)) k)).
-Proof. rewrite facts_lookup_prog, facts_register_prog. exact (fun sro => no_stale_after_register_std sro _ HwbL). Qed.
+Proof. rewrite facts_lookup_prog, facts_register_prog. exact (fun sro => no_stale_after_register_std sro KeyFull HkmF _ HwbL). Qed.
 
 Lemma concurrent_equals_sequential : forall sro R0 tr j t,
-  reg_free sro lookup_prog register_prog (init R0) tr = true ->
-  threads (exec sro lookup_prog register_prog tr (init R0)) j = Some t -> tkind t = KLookup -> cont t = [] ->
+  reg_free sro KeyFull lookup_prog register_prog (init R0) tr = true ->
+  threads (exec sro KeyFull lookup_prog register_prog tr (init R0)) j = Some t -> tkind t = KLookup -> cont t = [] ->
   tres t = Some (lookup_all sro R0 (tkey t)) /\
   forall n t0,
-    threads (exec sro lookup_prog register_prog (SpawnLookup (tkey t) :: repeat (Step 0) n) (init R0)) 0 = Some t0 ->
+    threads (exec sro KeyFull lookup_prog register_prog (SpawnLookup (tkey t) :: repeat (Step 0) n) (init R0)) 0 = Some t0 ->
     cont t0 = [] -> tres t = tres t0.
 Proof.
   rewrite facts_lookup_prog, facts_register_prog. intros sro R0 tr j t Hf Hj Hk Hc. split.
-  - eapply (concurrent_answer_std sro _ HwbL); eauto.
-  - intros n t0 H0 Hc0. eapply (concurrent_equals_sequential_std sro _ HwbL); eauto.
+  - eapply (concurrent_answer_std sro KeyFull HkmF _ HwbL); eauto.
+  - intros n t0 H0 Hc0. eapply (concurrent_equals_sequential_std sro KeyFull HkmF _ HwbL); eauto.
 Qed.
 
 Lemma expect_sound : forall sro R0 tr j vs t,
-  expect sro lookup_prog register_prog (init R0) tr (fun _ => None) j = Some vs ->
-  threads (exec sro lookup_prog register_prog tr (init R0)) j = Some t -> cont t = [] ->
+  expect sro KeyFull lookup_prog register_prog (init R0) tr (fun _ => None) j = Some vs ->
+  threads (exec sro KeyFull lookup_prog register_prog tr (init R0)) j = Some t -> cont t = [] ->
   tkind t = KLookup /\ tres t = Some vs.
-Proof. rewrite facts_lookup_prog, facts_register_prog. exact (fun sro => expect_sound_std sro _ HwbL). Qed.
+Proof. rewrite facts_lookup_prog, facts_register_prog. exact (fun sro => expect_sound_std sro KeyFull HkmF _ HwbL). Qed.
 
 (* requests: _call_view only reads the candidate list, so whenever the expectation constrains the
    lookup of a request, the request is answered by the first accepting candidate of lookup_all *)
@@ -986,8 +990,8 @@ Lemma facts_multiview_stateless : multiview_stateless = true.
 Proof. reflexivity. Qed.
 
 Lemma request_answer_sound : forall sro R0 tr j vs t tbl,
-  expect sro lookup_prog register_prog (init R0) tr (fun _ => None) j = Some vs ->
-  threads (exec sro lookup_prog register_prog tr (init R0)) j = Some t -> cont t = [] ->
+  expect sro KeyFull lookup_prog register_prog (init R0) tr (fun _ => None) j = Some vs ->
+  threads (exec sro KeyFull lookup_prog register_prog tr (init R0)) j = Some t -> cont t = [] ->
   request_answer tbl (tres t) = Some (first_answer tbl vs).
 Proof.
   intros sro R0 tr j vs t tbl He Ht Hc.
@@ -1002,23 +1006,23 @@ Qed.
    (a later miss), never produces a stale or empty one: what is written back is a snapshot of the same
    dictionary, and a dictionary that is current while no registration is in progress has only ever
    received up-to-date entries. *)
-Theorem lookup_fresh_nolock : fresh_claim (lookup_with wb_nolock) register_prog.
-Proof. rewrite facts_register_prog. intros sro R0 tr1 k tr2. exact (lookup_fresh_std sro _ HwbN R0 tr1 k tr2). Qed.
+Theorem lookup_fresh_nolock : fresh_claim KeyFull (lookup_with wb_nolock) register_prog.
+Proof. rewrite facts_register_prog. intros sro R0 tr1 k tr2. exact (lookup_fresh_std sro KeyFull HkmF _ HwbN R0 tr1 k tr2). Qed.
 
-Theorem lookup_fresh_nolock_split : fresh_claim (lookup_with wb_nolock_split) register_prog.
-Proof. rewrite facts_register_prog. intros sro R0 tr1 k tr2. exact (lookup_fresh_std sro _ HwbS R0 tr1 k tr2). Qed.
+Theorem lookup_fresh_nolock_split : fresh_claim KeyFull (lookup_with wb_nolock_split) register_prog.
+Proof. rewrite facts_register_prog. intros sro R0 tr1 k tr2. exact (lookup_fresh_std sro KeyFull HkmF _ HwbS R0 tr1 k tr2). Qed.
 
-Theorem misses_not_cached_nolock : misses_claim (lookup_with wb_nolock) register_prog.
-Proof. rewrite facts_register_prog. intros sro R0 tr. exact (misses_not_cached_std sro _ HwbN R0 tr). Qed.
+Theorem misses_not_cached_nolock : misses_claim KeyFull (lookup_with wb_nolock) register_prog.
+Proof. rewrite facts_register_prog. intros sro R0 tr. exact (misses_not_cached_std sro KeyFull HkmF _ HwbN R0 tr). Qed.
 
-Theorem misses_not_cached_nolock_split : misses_claim (lookup_with wb_nolock_split) register_prog.
-Proof. rewrite facts_register_prog. intros sro R0 tr. exact (misses_not_cached_std sro _ HwbS R0 tr). Qed.
+Theorem misses_not_cached_nolock_split : misses_claim KeyFull (lookup_with wb_nolock_split) register_prog.
+Proof. rewrite facts_register_prog. intros sro R0 tr. exact (misses_not_cached_std sro KeyFull HkmF _ HwbS R0 tr). Qed.
 
 (* ================= concrete world for examples and refutations ================= *)
 Definition sro1 (i : N) : list N :=
   if N.eqb i 1 then [1; 0]%N else if N.eqb i 11 then [11; 10; 0]%N else [].
-Definition k1 : key := (1, 11, 0)%N.
-Definition sA : slot := (1, 11, 0, 0)%N.
+Definition k1 : key := (0, 1, 11, 0)%N.
+Definition sA : slot := (0, 1, 11, 0, 0)%N.
 Definition R1 : reg := [(sA, Some 1%N)].
 Definition steps (i n : nat) : list label := repeat (Step i) n.
 (* thread 0 looks k1 up and is pre-empted just before the lock (24 instructions: all 18 adapter
@@ -1028,11 +1032,11 @@ Definition tr_late : list label :=
 
 (* non-vacuity: in the current tree the late write lands in the detached dictionary; the next
    lookup misses, queries again and sees the new view *)
-Definition st_late : state := exec sro1 lookup_prog register_prog tr_late (init R1).
-Definition st_next : state := exec sro1 lookup_prog register_prog (SpawnLookup k1 :: steps 2 40) st_late.
+Definition st_late : state := exec sro1 KeyFull lookup_prog register_prog tr_late (init R1).
+Definition st_next : state := exec sro1 KeyFull lookup_prog register_prog (SpawnLookup k1 :: steps 2 40) st_late.
 Example late_write_detached :
   quietb st_late = true /\
-  reg_free sro1 lookup_prog register_prog st_late (SpawnLookup k1 :: steps 2 40) = true /\
+  reg_free sro1 KeyFull lookup_prog register_prog st_late (SpawnLookup k1 :: steps 2 40) = true /\
   dget (heap st_late (cur st_late)) k1 = None /\ dget (heap st_late 0) k1 = Some [1%N] /\
   (exists t0, threads st_late 0 = Some t0 /\ tres t0 = Some [1%N]) /\
   (exists t, threads st_next 2 = Some t /\ cont t = [] /\ tres t = Some [2%N] /\ tq t = 18) /\
@@ -1061,28 +1065,28 @@ Ltac refute_fresh tr1 tr2 :=
 
 (* write through the re-read attribute: the late write of the pre-empted lookup lands in the
    FRESH dictionary; the next lookup returns the replaced view *)
-Lemma lookup_fresh_Reread_refuted : ~ fresh_claim (std_lookup Reread true) (std_register Swap).
+Lemma lookup_fresh_Reread_refuted : ~ fresh_claim KeyFull (std_lookup Reread true) (std_register Swap).
 Proof. refute_fresh tr_late (steps 2 40). Qed.
 
 (* clearing in place: the pre-empted lookup still holds the (emptied) current dictionary *)
-Lemma lookup_fresh_InPlace_refuted : ~ fresh_claim (std_lookup Local true) (std_register InPlace).
+Lemma lookup_fresh_InPlace_refuted : ~ fresh_claim KeyFull (std_lookup Local true) (std_register InPlace).
 Proof. refute_fresh tr_late (steps 2 40). Qed.
 
 (* no clear after the registration: a warm cache keeps the old answer *)
 Definition tr_warm : list label :=
   SpawnLookup k1 :: steps 0 40 ++ [SpawnRegister [(sA, Some 2%N)]; Step 1; Step 1].
-Lemma lookup_fresh_NoClear_refuted : ~ fresh_claim (std_lookup Local true) [RegisterAdapter].
+Lemma lookup_fresh_NoClear_refuted : ~ fresh_claim KeyFull (std_lookup Local true) [RegisterAdapter].
 Proof. refute_fresh tr_warm (steps 2 40). Qed.
 
 (* clear before the registration: a lookup between the two steps re-caches the old answer *)
 Definition tr_clear_first : list label :=
   [SpawnRegister [(sA, Some 2%N)]; Step 0; SpawnLookup k1] ++ steps 1 40 ++ [Step 0].
 Lemma lookup_fresh_ClearFirst_refuted :
-  ~ fresh_claim (std_lookup Local true) [Clear Swap; RegisterAdapter].
+  ~ fresh_claim KeyFull (std_lookup Local true) [Clear Swap; RegisterAdapter].
 Proof. refute_fresh tr_clear_first (steps 2 40). Qed.
 
 (* no [if views:] guard: a miss is written into the cache *)
-Lemma misses_not_cached_Unguarded_refuted : ~ misses_claim (std_lookup Local false) (std_register Swap).
+Lemma misses_not_cached_Unguarded_refuted : ~ misses_claim KeyFull (std_lookup Local false) (std_register Swap).
 Proof.
   intros H. pose proof (H sro1 [] (SpawnLookup k1 :: steps 0 40)) as H. cbv zeta in H.
   destruct H as [H _]. specialize (H 0 k1 []). apply H; [|reflexivity]. vm_compute. reflexivity.
@@ -1090,13 +1094,13 @@ Qed.
 
 (* non-vacuity of concurrent_equals_sequential: three lookup threads interleaved, one sequential run *)
 Definition tr_three : list label :=
-  [SpawnLookup k1; SpawnLookup k1; Step 0; Step 1; Step 0; SpawnLookup (1, 11, 1)%N] ++
+  [SpawnLookup k1; SpawnLookup k1; Step 0; Step 1; Step 0; SpawnLookup (0, 1, 11, 1)%N] ++
   steps 1 30 ++ steps 2 10 ++ steps 0 40 ++ steps 2 40.
 Example three_threads_finish :
-  reg_free sro1 lookup_prog register_prog (init R1) tr_three = true /\
-  forallb (fun j => match threads (exec sro1 lookup_prog register_prog tr_three (init R1)) j with
+  reg_free sro1 KeyFull lookup_prog register_prog (init R1) tr_three = true /\
+  forallb (fun j => match threads (exec sro1 KeyFull lookup_prog register_prog tr_three (init R1)) j with
                     | Some t => is_nil (cont t) | None => false end) [0; 1; 2] = true /\
-  (exists t0, threads (exec sro1 lookup_prog register_prog (SpawnLookup k1 :: repeat (Step 0) 40) (init R1)) 0 = Some t0
+  (exists t0, threads (exec sro1 KeyFull lookup_prog register_prog (SpawnLookup k1 :: repeat (Step 0) 40) (init R1)) 0 = Some t0
               /\ cont t0 = [] /\ tres t0 = Some [1%N]).
 Proof.
   vm_compute. split; [reflexivity|]. split; [reflexivity|].
@@ -1106,11 +1110,11 @@ Qed.
 (* what the finer atomicity does cost: a lost update.  Two lookups of different keys read the same
    dictionary before either writes back; the second write-back drops the first entry.  Both answers
    are right, the cache merely misses k1 next time. *)
-Definition k2 : key := (1, 11, 1)%N.
-Definition R2 : reg := [(sA, Some 1%N); ((1, 11, 0, 1)%N, Some 3%N)].
+Definition k2 : key := (0, 1, 11, 1)%N.
+Definition R2 : reg := [(sA, Some 1%N); ((0, 1, 11, 0, 1)%N, Some 3%N)].
 Definition tr_lost : list label :=
   [SpawnLookup k1; SpawnLookup k2] ++ steps 0 25 ++ steps 1 25 ++ steps 0 2 ++ steps 1 2.
-Definition st_lost : state := exec sro1 (lookup_with wb_nolock_split) register_prog tr_lost (init R2).
+Definition st_lost : state := exec sro1 KeyFull (lookup_with wb_nolock_split) register_prog tr_lost (init R2).
 Example lost_update_is_only_a_miss :
   dget (heap st_lost (cur st_lost)) k1 = None /\
   dget (heap st_lost (cur st_lost)) k2 = Some [3%N] /\
@@ -1119,4 +1123,116 @@ Example lost_update_is_only_a_miss :
 Proof.
   vm_compute. split; [reflexivity|]. split; [reflexivity|].
   split; eexists; (split; [reflexivity|]); split; reflexivity.
+Qed.
+
+(* ================= the cache key and the view classifier =================
+   With [KeyFull] (the key contains the classifier) everything above holds.  With [KeyTriad] (the key is
+   (request_iface, context_iface, view_name) only) an ordinary lookup and an exception-view lookup of
+   the same triad share one entry: refuted below by a concrete history.  What remains true with
+   [KeyTriad]: as long as every lookup is an ordinary one the two systems are the same system. *)
+Definition all_ordinary (st : state) : Prop :=
+  forall i t, threads st i = Some t -> ckey KeyTriad (tkey t) = tkey t.
+
+Lemma ckey_ordinary cl rq cx nm : N.eqb cl 0 = true -> ckey KeyTriad (cl, rq, cx, nm) = (cl, rq, cx, nm).
+Proof. intros H. apply N.eqb_eq in H. subst. reflexivity. Qed.
+
+Lemma step_thread_km sro km1 km2 st i t :
+  ckey km1 (tkey t) = ckey km2 (tkey t) -> step_thread sro km1 st i t = step_thread sro km2 st i t.
+Proof. intros H. unfold step_thread. rewrite H. reflexivity. Qed.
+
+Lemma label_triad_full sro LP RP st l :
+  all_ordinary st -> ordinary_only [l] = true ->
+  do_label sro KeyTriad LP RP st l = do_label sro KeyFull LP RP st l /\
+  all_ordinary (do_label sro KeyFull LP RP st l).
+Proof.
+  intros A O. destruct l as [k|ups|i]; simpl.
+  - split; [reflexivity|]. intros j t Hj. simpl in Hj.
+    destruct (Nat.eq_dec j (ntid st)) as [->|Hne].
+    + rewrite upd_same in Hj. inversion Hj. simpl. destruct k as [[[cl rq] cx] nm].
+      simpl in O. rewrite andb_true_r in O. apply ckey_ordinary. exact O.
+    + rewrite upd_other in Hj by auto. eauto.
+  - split; [reflexivity|]. intros j t Hj. simpl in Hj.
+    destruct (Nat.eq_dec j (ntid st)) as [->|Hne].
+    + rewrite upd_same in Hj. inversion Hj. reflexivity.
+    + rewrite upd_other in Hj by auto. eauto.
+  - destruct (threads st i) as [t|] eqn:Hi; [|split; [reflexivity|exact A]].
+    split; [apply step_thread_km; rewrite (A _ _ Hi); reflexivity|].
+    destruct (step_generic sro KeyFull st i t Hi) as (_ & Ho & t' & Hs & Hk & _).
+    intros j tj Hj. destruct (Nat.eq_dec j i) as [->|Hne].
+    + rewrite Hs in Hj. inversion Hj. subst tj. rewrite Hk. eauto.
+    + rewrite Ho in Hj by auto. eauto.
+Qed.
+
+Lemma exec_triad_full sro LP RP tr : forall st,
+  all_ordinary st -> ordinary_only tr = true ->
+  exec sro KeyTriad LP RP tr st = exec sro KeyFull LP RP tr st /\
+  all_ordinary (exec sro KeyFull LP RP tr st) /\
+  reg_free sro KeyTriad LP RP st tr = reg_free sro KeyFull LP RP st tr.
+Proof.
+  induction tr as [|l tr IH]; intros st A O; simpl; [auto|].
+  simpl in O. apply andb_true_iff in O. destruct O as [O1 O2].
+  assert (O1' : ordinary_only [l] = true) by (simpl; rewrite O1; reflexivity).
+  destruct (label_triad_full sro LP RP st l A O1') as [E A'].
+  rewrite E. destruct (IH _ A' O2) as (E2 & A2 & F2). rewrite E2, F2. auto.
+Qed.
+
+Theorem lookup_fresh_ordinary_only_partial : forall sro R0 tr1 k tr2,
+  ordinary_only (tr1 ++ SpawnLookup k :: tr2) = true ->
+  let st1 := exec sro KeyTriad lookup_prog register_prog tr1 (init R0) in
+  let st2 := exec sro KeyTriad lookup_prog register_prog (SpawnLookup k :: tr2) st1 in
+  quietb st1 = true ->
+  reg_free sro KeyTriad lookup_prog register_prog st1 (SpawnLookup k :: tr2) = true ->
+  exists t, threads st2 (ntid st1) = Some t /\ tkind t = KLookup /\ tkey t = k /\
+            (cont t = [] -> tres t = Some (lookup_all sro (R st1) k)).
+Proof.
+  intros sro R0 tr1 k tr2 O. unfold ordinary_only in O. rewrite forallb_app in O.
+  apply andb_true_iff in O. destruct O as [O1 O2].
+  assert (A0 : all_ordinary (init R0)) by (intros i t H; discriminate).
+  destruct (exec_triad_full sro lookup_prog register_prog tr1 _ A0 O1) as (E1 & A1 & _).
+  cbv zeta. rewrite E1.
+  destruct (exec_triad_full sro lookup_prog register_prog (SpawnLookup k :: tr2) _ A1 O2) as (E2 & _ & F2).
+  rewrite E2, F2. apply lookup_fresh.
+Qed.
+
+(* the history that refutes [KeyTriad]: only an exception view is registered for the triad; an
+   exception-view lookup caches it; the ordinary lookup of the same triad that follows is answered
+   from that entry although nothing is registered for it *)
+Definition kE : key := (1, 1, 11, 0)%N.
+Definition R_exc : reg := [((1, 1, 11, 0, 0)%N, Some 7%N)].
+Definition tr_exc_first : list label := SpawnLookup kE :: steps 0 40.
+
+Lemma lookup_fresh_KeyTriad_refuted : ~ fresh_claim KeyTriad (std_lookup Local true) (std_register Swap).
+Proof.
+  intros H. pose proof (H sro1 R_exc tr_exc_first k1 (steps 1 40)) as H. cbv zeta in H.
+  match type of H with
+  | ?q -> ?f -> _ =>
+      assert (Q : q) by (vm_compute; reflexivity);
+      assert (F : f) by (vm_compute; reflexivity);
+      specialize (H Q F)
+  end.
+  destruct H as (t & A & _ & _ & D).
+  vm_compute in A. inversion A. subst t. vm_compute in D. specialize (D eq_refl). discriminate D.
+Qed.
+
+Example KeyTriad_history_answers :
+  (exists t, threads (exec sro1 KeyTriad (std_lookup Local true) (std_register Swap)
+                           (tr_exc_first ++ SpawnLookup k1 :: steps 1 40) (init R_exc)) 1 = Some t /\
+             tres t = Some [7%N] /\ tq t = 0) /\
+  lookup_all sro1 R_exc k1 = [] /\ lookup_all sro1 R_exc kE = [7%N] /\
+  (exists t, threads (exec sro1 KeyFull (std_lookup Local true) (std_register Swap)
+                           (tr_exc_first ++ SpawnLookup k1 :: steps 1 40) (init R_exc)) 1 = Some t /\
+             tres t = Some [] /\ tq t = 18).
+Proof.
+  vm_compute. split; [eexists; split; [reflexivity|split; reflexivity]|].
+  split; [reflexivity|]. split; [reflexivity|]. eexists. split; [reflexivity|split; reflexivity].
+Qed.
+
+(* which of the two applies to the tree at hand is decided by the regenerated fact *)
+Theorem lookup_fresh_current : cache_key_mode = KeyFull -> fresh_claim cache_key_mode lookup_prog register_prog.
+Proof. intros E. rewrite E. exact lookup_fresh. Qed.
+
+Theorem lookup_fresh_current_refuted :
+  cache_key_mode = KeyTriad -> ~ fresh_claim cache_key_mode lookup_prog register_prog.
+Proof.
+  intros E. rewrite E, facts_lookup_prog, facts_register_prog. exact lookup_fresh_KeyTriad_refuted.
 Qed.
